@@ -171,3 +171,164 @@ Proof.
   exists l0. unfold tree_finished. rewrite enc_seq_spec, !fits_seq_cons, fits_int, Fo.
   rewrite !flat_seq_cons, flat_seq_nil, app_nil_r, flat_int, <- app_assoc. repeat split; auto.
 Qed.
+
+(* ================= NewSessionTicket: idempotent, canonical up to the extension list ================= *)
+Definition oweight (l : list ext) : Z := fold_right (fun e s => 4 + Zlen (snd e) + s) 0 l.
+
+Lemma oweight_app a b : oweight (a ++ b) = oweight a + oweight b.
+Proof. unfold oweight. induction a as [|e t IH]; cbn [app fold_right]; [reflexivity|]. rewrite IH. lia. Qed.
+
+Lemma oweight_nonneg l : 0 <= oweight l.
+Proof. induction l as [|e t IH]; cbn [oweight fold_right]; [lia|]. fold (oweight t). pose proof (Zlen_nonneg (snd e)). lia. Qed.
+
+Lemma flat_others_len l : Zlen (flat_seq (t_others l)) = oweight l.
+Proof.
+  induction l as [|e t IH]; [reflexivity|]. unfold t_others in *. cbn [flat_map]. rewrite flat_seq_app, Zlen_app, IH, flat_ext.
+  rewrite !Zlen_app, !be_enc_Zlen, flat_single, flat_bytes. cbn [oweight fold_right]. fold (oweight t). lia.
+Qed.
+
+Lemma fits_others l : oweight l < 65536 -> fits_seq (t_others l) = true.
+Proof.
+  induction l as [|e t IH]; intros H; [reflexivity|]. unfold t_others in *. cbn [flat_map]. cbn [oweight fold_right] in H.
+  fold (oweight t) in H. pose proof (oweight_nonneg t). pose proof (Zlen_nonneg (snd e)).
+  rewrite fits_seq_app, IH by lia. rewrite fits_ext, flat_single, flat_bytes, fits_single, fits_bytes. cbn [andb]. lia.
+Qed.
+
+Definition nst_known (med : option Z) : list (Z * list Z) := match med with Some v => [(42, [v])] | None => [] end.
+Definition nst_medw (med : option Z) : Z := match med with Some _ => 8 | None => 0 end.
+
+Definition nst_inv (st : est) (w : Z) : Prop :=
+  exists med others,
+    e_known st = nst_known med /\ opt_b u32b med = true /\
+    e_other st = (Zlen others, flat_map dump_ext others) /\ forallb (ext_wf [42]) others = true /\
+    nst_medw med + oweight others <= w.
+
+Lemma nst_ext_item_inv st w bs st' r : bytes_ok bs -> nst_inv st w ->
+  ext_item parse_nst_ext false st bs = Ok (st', r) ->
+  nst_inv st' (w + (Zlen bs - Zlen r)) /\ bytes_ok r.
+Proof.
+  intros Hb (med & others & K & M & O & W & S) H. unfold ext_item in H. cbn [andb] in H.
+  unfold pull_uint16 in H. bind_inv H. bind_inv H.
+  destruct (pull_be_inv _ _ _ _ Hb E) as (-> & Hty & Hb1). destruct (pull_be_inv _ _ _ _ Hb1 E0) as (-> & Hlen & Hb2).
+  change (256 ^ Z.of_nat 2) with 65536 in *. rewrite !Zlen_app, !be_enc_Zlen. change (Z.of_nat 2) with 2.
+  unfold parse_nst_ext in H. destruct (z =? 42) eqn:T.
+  - unfold pull_uint32 in H. bind_inv H. bind_inv E1. injection E1 as <- <-. injection H as <- <-.
+    destruct (pull_be_inv _ _ _ _ Hb2 E2) as (-> & Hv & Hr). change (256 ^ Z.of_nat 4) with 4294967296 in Hv.
+    rewrite Zlen_app, be_enc_Zlen. change (Z.of_nat 4) with 4. split; [|exact Hr].
+    exists (Some z1), others. cbn [e_known e_other]. repeat split; auto.
+    + rewrite K. assert (z = 42) by lia. subst z. destruct med; reflexivity.
+    + unfold opt_b, u32b. change (2 ^ 32) with 4294967296. lia.
+    + cbn [nst_medw]. pose proof (oweight_nonneg others). destruct med; cbn [nst_medw] in S; lia.
+  - bind_inv H. injection H as <- <-. destruct (pull_bytes_inv _ _ _ _ Hb2 E1) as (-> & L & _ & Hr).
+    rewrite Zlen_app. split; [|exact Hr].
+    exists med, (others ++ [(z, l)]). cbn [e_known e_other]. repeat split; auto.
+    + rewrite O. unfold acc_add. cbn [fst snd]. rewrite Zlen_app, flat_map_app. cbn [flat_map dump_ext fst snd].
+      rewrite app_nil_r. reflexivity.
+    + rewrite forallb_app, W. cbn [forallb]. unfold ext_wf, u16b. cbn [fst existsb]. rewrite T. cbn. lia.
+    + rewrite oweight_app. cbn [oweight fold_right snd]. lia.
+Qed.
+
+Lemma nst_fold_inv fuel : forall rem st w bs st' r, bytes_ok bs -> nst_inv st w ->
+  pull_fold (ext_item parse_nst_ext false) fuel rem st bs = Ok (st', r) ->
+  nst_inv st' (w + (Zlen bs - Zlen r)) /\ bytes_ok r.
+Proof.
+  induction fuel as [|f IH]; intros rem st w bs st' r Hb I H; cbn [pull_fold] in H.
+  - destruct (rem <=? 0).
+    + injection H as <- <-. rewrite Z.sub_diag, Z.add_0_r. auto.
+    + destruct (ext_item parse_nst_ext false st bs) as [[? ?]|?]; cbn [bind] in H; discriminate.
+  - destruct (rem <=? 0).
+    + injection H as <- <-. rewrite Z.sub_diag, Z.add_0_r. auto.
+    + destruct (ext_item parse_nst_ext false st bs) as [[st1 b1]|e] eqn:E; cbn [bind] in H; [|discriminate].
+      destruct (nst_ext_item_inv _ _ _ _ _ Hb I E) as (I1 & Hb1).
+      destruct (IH _ _ _ _ _ _ Hb1 I1 H) as (I2 & Hr). split; [|exact Hr].
+      replace (w + (Zlen bs - Zlen r)) with (w + (Zlen bs - Zlen b1) + (Zlen b1 - Zlen r)) by lia. exact I2.
+Qed.
+
+Theorem new_session_ticket_reencode bs d rest : bytes_ok bs -> pull_new_session_ticket bs = Ok (d, rest) ->
+  exists m bytes', d = dump_new_session_ticket m /\ new_session_ticket_wf m = true /\
+    enc_seq (tree_new_session_ticket m) = Ok bytes' /\ Zlen bytes' + Zlen rest <= Zlen bs /\
+    forall rest', pull_new_session_ticket (bytes' ++ rest') = Ok (d, rest').
+Proof.
+  intros Hb H.
+  assert (X : exists m, d = dump_new_session_ticket m /\ new_session_ticket_wf m = true /\
+                fits_seq (tree_new_session_ticket m) = true /\
+                Zlen (flat_seq (tree_new_session_ticket m)) + Zlen rest <= Zlen bs).
+  { unfold pull_new_session_ticket in H.
+    destruct (pull_handshake_type 4 bs) as [[[] b0]|e] eqn:E0; cbn [bind] in H; [|discriminate].
+    unfold pull_block in H.
+    destruct (pull_be 3 b0) as [[len b1]|e] eqn:E1; cbn [bind] in H; [|discriminate]. cbv beta in H.
+    destruct (pull_uint32 b1) as [[lt b2]|e] eqn:E2; cbn [bind] in H; [|discriminate].
+    destruct (pull_uint32 b2) as [[aa b3]|e] eqn:E3; cbn [bind] in H; [|discriminate].
+    destruct (pull_opaque 1 b3) as [[nonce b4]|e] eqn:E4; cbn [bind] in H; [|discriminate].
+    destruct (pull_opaque 2 b4) as [[ticket b5]|e] eqn:E5; cbn [bind] in H; [|discriminate].
+    destruct (pull_extensions parse_nst_ext false b5) as [[st b6]|e] eqn:E6; cbn [bind] in H; [|discriminate].
+    destruct (Zlen b1 - Zlen b6 =? len) eqn:C; [|discriminate]. injection H as <- <-.
+    unfold pull_handshake_type, pull_uint8 in E0.
+    destruct (pull_be 1 bs) as [[t b0']|e] eqn:E0'; cbn [bind] in E0; [|discriminate].
+    destruct (t =? 4) eqn:K; [|discriminate]. injection E0 as ->.
+    destruct (pull_be_inv _ _ _ _ Hb E0') as (-> & _ & Hb0).
+    destruct (pull_be_inv _ _ _ _ Hb0 E1) as (-> & Hlen & Hb1).
+    unfold pull_uint32 in E2, E3.
+    destruct (pull_be_inv _ _ _ _ Hb1 E2) as (-> & Hlt & Hb2).
+    destruct (pull_be_inv _ _ _ _ Hb2 E3) as (-> & Haa & Hb3).
+    destruct (pull_opaque_inv _ _ _ _ Hb3 E4) as (-> & Fn & _ & Hb4).
+    destruct (pull_opaque_inv _ _ _ _ Hb4 E5) as (-> & Ft & _ & Hb5).
+    unfold pull_extensions, pull_list, pull_block in E6.
+    destruct (pull_be 2 b5) as [[elen b7]|e] eqn:E7; cbn [bind] in E6; [|discriminate].
+    destruct (pull_fold (ext_item parse_nst_ext false) (length b7) elen est0 b7) as [[st' b8]|e] eqn:E8; cbn [bind] in E6; [|discriminate].
+    destruct (Zlen b7 - Zlen b8 =? elen) eqn:C2; [|discriminate]. injection E6 as <- <-.
+    destruct (pull_be_inv _ _ _ _ Hb5 E7) as (-> & Hel & Hb7).
+    assert (I0 : nst_inv est0 0).
+    { exists None, []. repeat split; cbn; lia. }
+    destruct (nst_fold_inv _ _ _ _ _ _ _ Hb7 I0 E8) as ((med & others & Kn & M & O & W & S) & Hr).
+    change (256 ^ Z.of_nat 4) with 4294967296 in *. change (256 ^ Z.of_nat 2) with 65536 in *.
+    change (256 ^ Z.of_nat 3) with 16777216 in *.
+    exists (mkNST lt aa nonce ticket med others).
+    pose proof (oweight_nonneg others) as ON.
+    assert (EX : Zlen (flat_seq (nst_exts (mkNST lt aa nonce ticket med others))) = nst_medw med + oweight others).
+    { unfold nst_exts. cbn [nst_max_early_data_size nst_other_extensions]. rewrite flat_seq_app, Zlen_app, flat_others_len.
+      destruct med; cbn [t_opt nst_medw]; [|reflexivity].
+      rewrite flat_ext, !Zlen_app, !be_enc_Zlen, flat_single, flat_int, be_enc_Zlen. reflexivity. }
+    assert (FX : fits_seq (nst_exts (mkNST lt aa nonce ticket med others)) = true).
+    { unfold nst_exts. cbn [nst_max_early_data_size nst_other_extensions]. rewrite fits_seq_app, fits_others by (destruct med; cbn [nst_medw] in S; lia).
+      destruct med; cbn [t_opt]; [|reflexivity]. rewrite fits_ext, flat_single, flat_int, be_enc_Zlen. reflexivity. }
+    repeat split.
+    - unfold dump_new_session_ticket. cbn [nst_lifetime nst_age_add nst_nonce nst_ticket nst_max_early_data_size nst_other_extensions].
+      unfold out_est, NST_ORDER. cbn [flat_map]. rewrite Kn, O. unfold out_acc, dump_list. cbn [fst snd].
+      destruct med; cbn; repeat rewrite <- app_assoc; reflexivity.
+    - unfold new_session_ticket_wf. cbn [nst_lifetime nst_age_add nst_max_early_data_size nst_other_extensions].
+      rewrite M, W. unfold u32b. change (2 ^ 32) with 4294967296. lia.
+    - unfold tree_new_session_ticket. rewrite !fits_seq_cons, fits_block, !fits_seq_cons, !fits_int, fits_seq_nil.
+      cbn [nst_lifetime nst_age_add nst_nonce nst_ticket]. rewrite Fn, Ft, fits_block, FX, EX.
+      rewrite !flat_seq_cons, flat_seq_nil, !flat_int, flat_block, EX, !Zlen_app, !be_enc_Zlen.
+      rewrite !Zlen_app, !be_enc_Zlen in C. cbn [andb]. change (Zlen (@nil Z)) with 0.
+      change (256 ^ Z.of_nat 3) with 16777216. change (256 ^ Z.of_nat 2) with 65536.
+      pose proof (Zlen_nonneg (flat_tv (t_opaque 1 nonce))). pose proof (Zlen_nonneg (flat_tv (t_opaque 2 ticket))).
+      lia.
+    - unfold tree_new_session_ticket. cbn [nst_lifetime nst_age_add nst_nonce nst_ticket].
+      rewrite !flat_seq_cons, flat_seq_nil, flat_int, flat_block, !flat_seq_cons, flat_seq_nil, !flat_int, flat_block, ?app_nil_r.
+      rewrite !Zlen_app, !be_enc_Zlen in C.
+      repeat rewrite ?Zlen_app, ?be_enc_Zlen, ?EX. change (Zlen (@nil Z)) with 0 in *. lia. }
+  destruct X as (m & -> & Wf & F & L). exists m, (flat_seq (tree_new_session_ticket m)).
+  rewrite enc_seq_spec, F. repeat split; auto.
+  intros rest'. apply new_session_ticket_roundtrip; [exact Wf|]. rewrite enc_seq_spec, F. reflexivity.
+Qed.
+
+(* where the encoding is NOT canonical: a duplicated extension (the last one wins) and a known extension whose declared
+   length differs from its body (F13) are accepted and re-encode to different bytes *)
+Definition reenc_nst (bs : list Z) : option (list Z) :=
+  match pull_new_session_ticket bs with
+  | Ok (d, _) => match enc_seq (tree_new_session_ticket (tk_new_session_ticket d)) with Ok b => Some b | Err _ => None end
+  | Err _ => None
+  end.
+
+Theorem nst_reencode_not_canonical_refuted :
+  (* max_early_data_size twice: 4096 then 8192 *)
+  (let bs := [4; 0; 0; 30; 0; 0; 0; 1; 0; 0; 0; 2; 0; 0; 1; 7; 0; 16; 0; 42; 0; 4; 0; 0; 16; 0; 0; 42; 0; 4; 0; 0; 32; 0] in
+   exists b, reenc_nst bs = Some b /\ b <> bs /\ Zlen b < Zlen bs) /\
+  (* F13: declared extension_length 0, body read anyway; re-encoded with length 4 *)
+  (let bs := [4; 0; 0; 22; 0; 0; 0; 1; 0; 0; 0; 2; 0; 0; 1; 7; 0; 8; 0; 42; 0; 0; 0; 0; 16; 0] in
+   exists b, reenc_nst bs = Some b /\ b <> bs /\ Zlen b = Zlen bs).
+Proof.
+  split; eexists; (split; [vm_compute; reflexivity|split; [intros X; discriminate X|reflexivity]]).
+Qed.
